@@ -294,7 +294,117 @@ class ErrScn:
         return None, outcome
 
 
-SCENARIOS = {"err": ErrScn}
+BODY_END_CB_WORKER = '''
+em = channel.gateway.execmodel
+W = em.world
+c = channel.receive()
+seen = []
+def cb(item):
+    if item is None:
+        raise ValueError("boom-on-endmarker")
+    seen.append(item)
+c.setcallback(cb, endmarker=None)
+channel.gateway._vp_keep = (c, seen)
+channel.send("ready")
+'''
+
+
+class EndCbScn:
+    """a callback that raises on its ENDMARKER (P: side "init" | "worker", n, how "close" | "body-end"):
+    the failure is confined to that channel -- the gateway and the sibling channel live on"""
+
+    @staticmethod
+    def scenario(w, P):
+        S = Session(w, P.get("transport", "popen"), P.get("backend", "thread"))
+
+        def main():
+            gw = S.open()
+            em = S.proc.execmodel
+            sib = gw.remote_exec(SIBLING)
+            w.exploring = True
+
+            def sibling():
+                out = []
+                try:
+                    for x in (1, 2):
+                        sib.send(x)
+                        out.append(sib.receive(timeout=10))
+                except BaseException as e:  # noqa: BLE001
+                    out.append(type(e).__name__)
+                w.observe("sibling", out)
+
+            S.user(sibling, "sibling")
+            seen = []
+            if P["side"] == "init":
+
+                def cb(item):
+                    if item is None:
+                        raise ValueError("boom-on-endmarker")
+                    seen.append(item)
+
+                ch = gw.remote_exec("for k in range(%d):\n    channel.send((7, k))" % P["n"])
+                ch.setcallback(cb, endmarker=None)
+                try:
+                    ch.waitclose(10)
+                    w.observe("own-waitclose", "returned")
+                except BaseException as e:  # noqa: BLE001
+                    w.observe("own-waitclose", type(e).__name__, "boom-on-endmarker" in str(e))
+                w.observe("init-seen", list(seen))
+            else:
+                ctl = gw.remote_exec(BODY_END_CB_WORKER)
+                c = gw.newchannel()
+                ctl.send(c)
+                ctl.receive(timeout=10)
+                for k in range(P["n"]):
+                    c.send((7, k))
+                c.close()
+                em.sleep(1.0)
+            S.join_users(20)
+            w.exploring = False
+            try:
+                w.observe("hasreceiver", gw.hasreceiver())
+                c2 = gw.remote_exec("channel.send(channel.receive() * 2)")
+                c2.send(21)
+                w.observe("fresh", c2.receive(timeout=10))
+                if P["side"] == "worker":
+                    c3 = gw.remote_exec("channel.send(list(channel.gateway._vp_keep[1]))")
+                    w.observe("worker-seen", c3.receive(timeout=10))
+            except BaseException as e:  # noqa: BLE001
+                w.observe("fresh-exc", type(e).__name__, str(e)[:200])
+            w.observe("main-done")
+            S.group.terminate(timeout=2.0)
+
+        S.main(main)
+        return S
+
+    @staticmethod
+    def oracle(w, S, P):
+        obs = w.obs
+        d = {}
+        for e in obs:
+            d.setdefault(e[0], []).append(e[1:])
+        outcome = tuple(sorted((k, len(v)) for k, v in d.items()))
+
+        def V(key, msg):
+            return (f"c07:{key}", f"{msg}\n  params={P}\n  obs={obs}\n  blocked={w.blocked_at_end}\n  stderr={w.stderr.getvalue()[-1200:]}"), outcome
+
+        if "main-done" not in d:
+            return V("hang", "main thread never finished")
+        if d.get("sibling") != [([(8, 1), (8, 2)],)]:
+            return V("sibling-disturbed", f"sibling channel saw {d.get('sibling')}")
+        if "fresh-exc" in d or d.get("hasreceiver") != [(True,)] or d.get("fresh") != [(42,)]:
+            return V("gateway-down", f"after a callback failed on its endmarker: hasreceiver={d.get('hasreceiver')} fresh={d.get('fresh')} exc={d.get('fresh-exc')}")
+        want = [(7, k) for k in range(P["n"])]
+        seen = d.get("init-seen" if P["side"] == "init" else "worker-seen")
+        if seen != [(want,)]:
+            return V("items-before-failure", f"the callback saw {seen} before its endmarker, sent {want}")
+        if P["side"] == "init" and d.get("own-waitclose") == [("returned",)]:
+            # the failing side's own channel is closed with a proper error as well
+            return V("own-channel-no-error", "waitclose() on the channel whose callback failed returned as if nothing had happened")
+        return None, outcome
+
+
+SCENARIOS = {"err": ErrScn, "endcb": EndCbScn}
 
 
 def stmt_pred(m, q, l):
@@ -351,6 +461,18 @@ def run(tier: str, only=None) -> int:
             for rc in ({"py3str_as_py2str": True}, {"py2str_as_py3str": False}, {"py3str_as_py2str": True, "py2str_as_py3str": False}):
                 P3 = dict(C, transport="popen", backend="thread", reconf=rc)
                 harness.run_exploration(rep, PID, f"{name}/reconf:{'+'.join(sorted(rc))}", ErrScn, P3, {"ps": 1, "free": 0}, max_execs=cap)
+    # a callback failing on its ENDMARKER, on either side
+    for side in ("init", "worker"):
+        for n in (0, 2):
+            name = f"endcb/{side}:n{n}"
+            if only and only not in name:
+                continue
+            P = {"side": side, "n": n, "transport": "popen", "backend": "thread"}
+            harness.run_exploration(rep, PID, name + "/sync", EndCbScn, P, {"ps": 1, "free": 1} if tier == "quick" else {"ps": 2, "free": 1}, max_execs=cap)
+            harness.run_exploration(rep, PID, name + "/stmt", EndCbScn, P, {"ps": 0, "pl": 1, "free": 0}, stmt=stmt, max_execs=cap)
+            if n == 2:
+                for tr, be in (("socket", "thread"), ("via", "thread")):
+                    harness.run_exploration(rep, PID, f"{name}/{tr}:{be}", EndCbScn, dict(P, transport=tr, backend=be), {"ps": 1, "free": 0}, max_execs=cap)
     return rep.finish()
 
 
